@@ -5,12 +5,12 @@ from fractions import Fraction
 import common, gen, impl, algcheck
 from props import c09
 
-ALLOWED_AXIOMS = set()
+ALLOWED_AXIOMS = set(common.ALLOWED_AXIOMS_R)      # the posed-problem theorems about ellipsoids are over R
 TRUSTED_BASE = [
     "Coq 8.16.1 kernel (coqc); no native_compute; every C10 theorem: Closed under the global context",
     "translator: RectangularConfidenceRegion.is_covered (the posed LP and the accepted statuses) and hyperrectangle_get_region_matrix regenerated into coq/gen/Gen_region.v",
     "cvxpy and its solvers are modelled: 'status optimal/None iff the posed LP is feasible' is assumed up to a tolerance band (1e-7 x scale), outside which the implementation must agree with the verified Fourier-Motzkin decider rect_cov",
-    "ellipsoids: EllipsoidalConfidenceRegion.is_covered (SOCP) compared with certificates produced by an untrusted cvxpy solve in the harness and checked by the verified cov_witness_ok / cov_separator_ok; instances without a checkable certificate are counted as undecided and never alarm",
+    "ellipsoids: the SOCP posed by EllipsoidalConfidenceRegion.is_covered is regenerated (translator/ellgen.py, Gen_ell.v; sqrtm(inv(sigma)) is the named precision square root) and proved to be the exists-exists specification over { c + alpha M g } (EllPosedCov.v, over R: standard real-number axioms); the solver's answer is compared with certificates produced by an untrusted cvxpy solve in the harness and checked by the verified cov_witness_ok / cov_separator_ok; instances without a checkable certificate are counted as undecided and never alarm",
     "extraction with ExtrOcamlBasic only + driver; OCaml 4.13.1",
 ]
 ASSUMPTIONS = ["instances within the tolerance band of the boundary are skipped and counted"]
